@@ -92,9 +92,12 @@ func (e *env) ibcRecvCases() []string {
 		ok, _ := tok.CoreRecv(c, B, pkt, relayer)
 		diff := lib.DiffDumps(pre, c.DumpAll(B))
 		changed := len(diff) > 0
-		if !ok && changed {
-			e.rep.Fail(lib.Failure{Kind: "monitor", Sig: "C18:ibcrecv:" + s.name,
-				What:   "an IBC packet answered with an error acknowledgement left application writes behind",
+		// the follow-up of these packets fails by construction (no such pair, reverting callee, …): whatever the
+		// acknowledgement says, nothing the application wrote may stay
+		followUpFails := s.parseOK && s.transferOK && !s.hookOK
+		if (!ok || followUpFails) && changed {
+			e.failSig(lib.Failure{Kind: "monitor", Sig: "C18:ibcrecv:" + s.name,
+				What:   "an IBC packet whose processing failed (error acknowledgement / failing follow-up) left application writes behind",
 				Replay: map[string]interface{}{"scenario": s.name, "diff(-pre,+post)": diff}})
 		}
 		e.rep.Case("ibcrecv:"+s.name, s.parseOK && s.transferOK && !s.hookOK)
